@@ -30,7 +30,10 @@ package main
 //	incSeqPanicsOnWrap    (tlcp) halfConn.incSeq ends in panic(...)
 //	writeRecordCCS        statements of the `if typ == recordTypeChangeCipherSpec` block of
 //	                      writeRecordLocked that touch the cipher/sequence state
-//	writeRecordPerRecord  (dtlcp) sequence statements inside the per-record loop
+//	writeRecordPerRecord  sequence statements inside the per-record loop of writeRecordLocked, in
+//	                      order, with "encrypt" and "write" (the `if _, err := c.write(...)`
+//	                      hand-over to the transport) as markers; statements nested in the write's
+//	                      error branch appear as "write-err:<stmt>", other nested ones as "if:<stmt>"
 //	encryptADParts / decryptADParts   the values appended to additionalData, in order
 //	encryptMACArgs / decryptMACArgs   arguments of the tls10MAC call of the CBC branch
 //	macHeaderEnc / macHeaderDec       (dtlcp) elements of the macHeader literal
@@ -511,6 +514,31 @@ func emitKeys(e *emitter, p *pkg) {
 					})
 				}
 			case *ast.ForStmt:
+				// every statement nested below a top-level statement of the loop body that
+				// touches the sequence state (e.g. inside the error branch of the transport write)
+				lhsTouches := func(a *ast.AssignStmt) bool { // assigns TO the sequence state
+					for _, l := range a.Lhs {
+						if interesting(p.src(l)) {
+							return true
+						}
+					}
+					return false
+				}
+				nested := func(tag string, n ast.Node) {
+					ast.Inspect(n, func(x ast.Node) bool {
+						switch v := x.(type) {
+						case *ast.AssignStmt:
+							if lhsTouches(v) {
+								per = append(per, tag+":"+p.src(v))
+							}
+						case *ast.IncDecStmt:
+							if s := p.src(v); interesting(s) {
+								per = append(per, tag+":"+s)
+							}
+						}
+						return true
+					})
+				}
 				for _, bs := range t.Body.List {
 					switch u := bs.(type) {
 					case *ast.IncDecStmt:
@@ -524,7 +552,21 @@ func emitKeys(e *emitter, p *pkg) {
 					case *ast.AssignStmt:
 						if s := p.src(u); strings.Contains(s, "c.out.encrypt(") {
 							per = append(per, "encrypt")
+						} else if lhsTouches(u) {
+							per = append(per, s)
 						}
+					case *ast.IfStmt:
+						// `if _, err := c.write(outBuf); err != nil { return n, err }`: the hand-over
+						// to the transport; its position relative to the sequence statements and
+						// whatever its error branch does to the sequence state
+						if u.Init != nil && strings.Contains(p.src(u.Init), "c.write(") {
+							per = append(per, "write")
+							nested("write-err", u.Body)
+						} else {
+							nested("if", u)
+						}
+					default:
+						nested("nested", bs)
 					}
 				}
 			}
